@@ -30,7 +30,7 @@ ASSUMPTIONS = ["payoff value tolerance 4*eps*(|S|+|K|) (one rounded subtraction 
                "conditioning of the log differences", "a comparison within 2 ulp of a strike that is not representable in the "
                "working dtype is counted as ambiguous_skipped, not judged",
                "the functional:* operations are plain value generation and are labelled so"]
-PROBES = ["dt_changed_on_live_objects", "start_changed_on_live_object", "call_flipped_on_live_objects", "tie_terminal", "tie_extreme", "pinned", "clause_chain2", "T1", "T2", "forward_start_nonzero", "variance_swap",
+PROBES = ["clause_raised_inside_payoff", "dt_changed_on_live_objects", "start_changed_on_live_object", "call_flipped_on_live_objects", "tie_terminal", "tie_extreme", "pinned", "clause_chain2", "T1", "T2", "forward_start_nonzero", "variance_swap",
           "relations", "after_cast", "after_resim", "clause_added_midway", "put_uses_min", "functional", "strike_changed_on_live_objects", "maturity_not_multiple_of_dt"]
 DYADIC = [0.5, 0.75, 1.0, 1.0, 1.03125, 1.25]
 
@@ -81,7 +81,7 @@ def generate(rng):
     ops = [{"op": "simulate", "target": rng.choice(ids), "n_paths": n, "torch_seed": rng.seed31()}]
     ncl = 100
     for _ in range(rng.randint(3, 13)):
-        k = rng.wchoice([("check", 6), ("relations", 2), ("pin", 3), ("add_clause", 1), ("cast", 1), ("simulate", 1), ("functional", 1),
+        k = rng.wchoice([("check", 6), ("relations", 2), ("pin", 3), ("add_clause", 1.6), ("cast", 1), ("simulate", 1), ("functional", 1),
                          ("set_strike", 1), ("redt", 2), ("set_start", 1), ("set_call", 1)])
         if k == "set_strike":
             ops.append({"op": "set_strike", "strike": rng.choice(DYADIC + [0.9, 1.1])})
@@ -110,6 +110,16 @@ def generate(rng):
         elif k == "pin":
             ops.append({"fault": "pin", "what": rng.choice(["terminal", "max", "min", "start", "all_equal"]), "path": rng.randint(0, 7),
                         "col": rng.randint(0, 12), "strike": K})
+        elif k == "add_clause" and rng.chance(0.4):
+            # F8: a clause that raises once in the middle of payoff(); afterwards the contract is what it was
+            did = rng.choice(ids)
+            ops.append({"op": "add_clause", "derivative": did, "clause": {"name": "%s%d" % (rng.choice(["f", "m", "zf"]), ncl), "kind": "flaky_shift",
+                                                                       "v": rng.choice([0.125, -0.25, 1.0])}})
+            ncl += 1
+            if rng.chance(0.5):
+                ops.append({"op": "check", "derivative": did})
+            ops.append({"op": "clause_raises", "derivative": did})
+            ops.append({"op": "check", "derivative": did})
         elif k == "add_clause":
             c = gen_clauses(rng, 1)[0]
             c["name"] = "%s%d" % (rng.choice(["x", "b", "k", "aa", "zz"]), ncl)
@@ -262,6 +272,7 @@ def _execute(program, stats, hist):
     clauses = {d["id"]: list(d.get("clauses", [])) for d in program["world"]["derivatives"]}
     dspec = {d["id"]: d for d in program["world"]["derivatives"]}
     after_cast = after_resim = False
+    flaky = {}
     nsim = 0
     for op in program["ops"]:
         seq = hist.seq
@@ -330,10 +341,30 @@ def _execute(program, stats, hist):
             hist.add(op="cast", dtype=op["dtype"])
         elif name == "add_clause":
             d = world.derivatives[op["derivative"]]
-            d.add_clause(op["clause"]["name"], make_clause(op["clause"]))
+            cobj = make_clause(op["clause"])
+            d.add_clause(op["clause"]["name"], cobj)
+            if op["clause"]["kind"] == "flaky_shift":
+                flaky.setdefault(op["derivative"], []).append(cobj)
             clauses[op["derivative"]].append(op["clause"])
             stats.probe("clause_added_midway")
             hist.add(op="add_clause", derivative=op["derivative"], kind=op["clause"]["kind"])
+        elif name == "clause_raises":
+            objs = flaky.get(op["derivative"], [])
+            if not objs:
+                continue
+            objs[-1].armed = True
+            raised = False
+            try:
+                world.derivatives[op["derivative"]].payoff()
+            except RuntimeError:
+                raised = True
+            except Exception:
+                raised = True
+            objs[-1].armed = False
+            stats.fault("F8_callback_exception")
+            if raised:
+                stats.probe("clause_raised_inside_payoff")
+            hist.add(op=name, derivative=op["derivative"], raised=raised)
         elif name == "check":
             did = op["derivative"]
             d = world.derivatives[did]
